@@ -253,4 +253,61 @@ theorem symmetric_centre_dominant {n : Nat} (w : Fin n → ℝ) (e : Fin n → Q
           rw [ha, ht, ← hyw, ← hyn, ← Finset.mul_sum, Finset.sum_add_distrib, Finset.sum_mul, Finset.sum_mul]
           ring
 
+/-! ### the exponential of opposite rotation vectors; quarter-turn bound -/
+
+theorem V3.neg_norm (r : V3 ℝ) : r.neg.norm = r.norm := by
+  rw [V3.norm_def, V3.norm_def]; simp [V3.neg]
+
+theorem quatExp_neg (r : V3 ℝ) : quatExp r.neg = (quatExp r).conj := by
+  by_cases h : cutoff < r.norm
+  · rw [quatExp_regular r h, quatExp_regular r.neg (by rw [V3.neg_norm]; exact h), V3.neg_norm]
+    ext <;> simp only [Q.conj, V3.neg] <;> ring
+  · rw [quatExp_cut r (not_lt.mp h), quatExp_cut r.neg (by rw [V3.neg_norm]; exact not_lt.mp h)]
+    ext <;> simp [Q.conj]
+
+/-- rotation angle below a quarter turn (half-angle below π/4): `w² > 1/2` -/
+theorem quatExp_w_sq (r : V3 ℝ) (h : r.norm < Real.pi / 2) : 1 / 2 < (quatExp r).w ^ 2 := by
+  by_cases hc : cutoff < r.norm
+  · rw [quatExp_regular r hc]
+    simp only
+    rw [Real.cos_sq (r.norm / 2)]
+    have h0 := V3.norm_nonneg r
+    have : 0 < Real.cos (2 * (r.norm / 2)) :=
+      Real.cos_pos_of_mem_Ioo ⟨by linarith [Real.pi_pos], by linarith⟩
+    linarith
+  · rw [quatExp_cut r (not_lt.mp hc)]; norm_num
+
+/-! ### invariance of the outer-product matrix -/
+
+theorem outerSum_sign (w : Fin n → ℝ) (c : Fin n → Fin d → ℝ) (s : Fin n → ℝ)
+    (hs : ∀ i, s i = 1 ∨ s i = -1) : outerSum w (fun i => s i • c i) = outerSum w c := by
+  funext a b
+  simp only [outerSum, Pi.smul_apply, smul_eq_mul]
+  refine Finset.sum_congr rfl (fun i _ => ?_)
+  rcases hs i with h | h <;> rw [h] <;> ring
+
+theorem outerSum_perm (w : Fin n → ℝ) (c : Fin n → Fin d → ℝ) (σ : Equiv.Perm (Fin n)) :
+    outerSum (fun i => w (σ i)) (fun i => c (σ i)) = outerSum w c := by
+  funext a b
+  simp only [outerSum]
+  exact Equiv.sum_comp σ (fun i => w i * c i a * c i b)
+
+/-- all inputs `± q0`: `q0` satisfies the contract and every vector satisfying it is `± q0` -/
+theorem all_equal_dominant (w : Fin n → ℝ) (s : Fin n → ℝ) (hs : ∀ i, s i = 1 ∨ s i = -1)
+    (p : Fin d → ℝ) (hp : p ⬝ᵥ p = 1) (hsum : 0 < ∑ i, w i) :
+    IsDominantEigvec (outerSum w (fun i => s i • p)) p ∧
+    ∀ v, IsDominantEigvec (outerSum w (fun i => s i • p)) v → v = p ∨ v = -p := by
+  rw [outerSum_sign w (fun _ => p) s hs]
+  apply dominant_of_quadform w _ p (∑ i, w i) 0 hp
+  · funext k
+    rw [outerSum_mulVec]
+    simp only [hp, mul_one, Pi.smul_apply, smul_eq_mul]
+    rw [Finset.sum_mul]
+  · exact hsum
+  · intro u
+    rw [zero_mul, add_zero, Finset.sum_mul]
+
+theorem colsOf_eq (q : Mat ℝ 4 n) (i : Fin n) : colsOf q i = (Q.ofCol q i).get := by
+  funext a; fin_cases a <;> rfl
+
 end BFL.Quat
